@@ -19,6 +19,7 @@ CORPUS = [
 
 class C17(PureCheck):
     pid = "C17"
+    subst_every = 6
     rule = ("every string of length <=4 (quick) / <=5 (thorough) over the 13-symbol alphabet {a, newline, ESC, 0x9B, '[', "
             "'1', '3', ';', '?', space, 'm', 'H', 'K'} plus seeded random strings of length 5..10 over it and a corpus of "
             "real-world samples (pygments-style, text that looks like a % / {} format string next to unsupported sequences, ESC[m, 38;5;n, cursor moves, OSC, truncated/nested sequences) and numeric control sequences with every parameter list of <=2 (thorough <=3, plus sampled longer ones) over a 22-number vocabulary (SGR codes supported and not, 38/48/58 selectors cut off at every point, empty parameters); fmtstr and "
